@@ -207,6 +207,7 @@ struct ctx
     bool const g = base->get(i);
     std::string r;
     std::string rd;
+    std::string ps;
     bool rest = true;
     for (int v = 1; v >= 0; --v)
     {
@@ -225,12 +226,14 @@ struct ctx
         r += "O1=" + ws(*o) + " o1=" + ws(*o2) + " ";
       }
       rd += std::string(val_ ? "" : ",") + std::to_string(obs(*s));
+      vp ps_{base->clone()};
+      ps += b01(ps_->proxy_sees_write(i, val_));
       // save - mutate - restore
       s->set(i, g);
       if (!s->eq(*base) || s->ne(*base))
         rest = false;
     }
-    return r + "rd=" + rd + " rest=" + b01(rest) + " g=" + b01(g);
+    return r + "rd=" + rd + " ps=" + ps + " cr=" + b01(base->const_proxy_rebind_read(i, j)) + " rest=" + b01(rest) + " g=" + b01(g);
   }
 
   std::string bits_digest(ull A) const
@@ -420,10 +423,34 @@ struct ctx
   }
 };
 
+// `mask w k`: fcppt::bit::shifted_mask<W>(k);  `test w x k`: fcppt::bit::test(x, shifted_mask<W>(k))
+std::string bit_ops(std::vector<std::string> const &t)
+{
+  unsigned const w = static_cast<unsigned>(vh::to_ull(t[1]));
+  if (w != 8 && w != 16 && w != 32 && w != 64)
+    return "bad-op";
+  if (t[0] == "mask" && t.size() == 3)
+  {
+    unsigned const k = static_cast<unsigned>(vh::to_ull(t[2]));
+    if (k >= w) return "bad-op";
+    return std::to_string(w == 8 ? c10::shifted_mask_w8(k) : w == 16 ? c10::shifted_mask_w16(k) : w == 32 ? c10::shifted_mask_w32(k) : c10::shifted_mask_w64(k));
+  }
+  if (t[0] == "test" && t.size() == 4)
+  {
+    ull const x = vh::to_ull(t[2]);
+    unsigned const k = static_cast<unsigned>(vh::to_ull(t[3]));
+    if (k >= w || (w < 64 && (x >> w) != 0U)) return "bad-op";
+    return b01(w == 8 ? c10::bit_test_w8(x, k) : w == 16 ? c10::bit_test_w16(x, k) : w == 32 ? c10::bit_test_w32(x, k) : c10::bit_test_w64(x, k));
+  }
+  return "bad-op";
+}
+
 std::string handle(std::vector<std::string> const &t)
 {
   if (t.size() < 3)
     return "bad-op";
+  if (t[0] == "mask" || t[0] == "test")
+    return bit_ops(t);
   unsigned const n = static_cast<unsigned>(vh::to_ull(t[1]));
   unsigned const w = static_cast<unsigned>(vh::to_ull(t[2]));
   factory const *f = nullptr;
